@@ -27,6 +27,10 @@ def render(case, k):
             out.append("%svar %s = %d;" % (pad, t["n"], lit))
         elif t["k"] == "U":
             out.append("%s%s = %s + %d;" % (pad, t["n"], t["n"], lit))
+        elif t["k"] == "F":
+            # the header declares, tests and steps the variable; the step is an occurrence of its own (literal 2000 + position)
+            out.append("%sfor (var %s = %d; %s < %d; %s += %d) {" % (pad, t["n"], lit, t["n"], lit + 1000, t["n"], lit + 2000))
+            ind += 1
         elif t["k"] == "{":
             kind = BLOCKS[(k + i) % len(BLOCKS)]
             if kind == "plain":
@@ -58,7 +62,7 @@ def occurrences(cfg):
             r = s["rhe"]
             if r["k"] == "num" and 100 < int(r["num"]) < 1000:
                 occ[int(r["num"])].add((s["var"]["n"], s["var"]["s"]))
-            elif r["k"] == "infix" and r["r"]["k"] == "num" and 100 < int(r["r"]["num"]) < 1000 and r["l"]["k"] == "var":
+            elif r["k"] == "infix" and r["r"]["k"] == "num" and (100 < int(r["r"]["num"]) < 1000 or 2100 < int(r["r"]["num"]) < 3000) and r["l"]["k"] == "var":
                 lit = int(r["r"]["num"])
                 occ[lit].add((s["var"]["n"], s["var"]["s"]))
                 occ[lit].add((r["l"]["name"]["n"], r["l"]["name"]["s"]))
@@ -137,7 +141,8 @@ def run(tier):
             raise vlib.ToolError("generated scope tree does not parse/lift:\n" + srcs[i])
         occ = occurrences(doc["pre"])
         toks = c["toks"]
-        idxs = [j for j in range(1, len(toks) + 1) if toks[j - 1]["k"] in ("D", "U")]
+        idxs = [j for j in range(1, len(toks) + 1) if toks[j - 1]["k"] in ("D", "U", "F")]
+        fidx = [j for j in idxs if toks[j - 1]["k"] == "F"]
         names = {}
         bad = None
         for j in idxs:
@@ -152,6 +157,11 @@ def run(tier):
         if bad:
             v.violation(bad, dict(info, occurrence=j, ir_names=sorted(map(list, occ.get(100 + j, set())))))
             continue
+        for j in fidx:
+            got = occ.get(2100 + j, set())
+            if got != {names[j]}:
+                v.violation("scope:the step of a for loop does not denote the variable its header declares",
+                            dict(info, header=j, header_name=list(names[j]), step_names=sorted(map(list, got))))
         for a in idxs:
             for b in idxs:
                 if a < b and (c["bind"][a - 1] == c["bind"][b - 1]) != (names[a] == names[b]):
@@ -178,11 +188,11 @@ def run(tier):
         for r in reps:
             pt = r["primary"][0]["text"] if r["primary"] else ""
             st = r["secondary"][0]["text"] if r["secondary"] else ""
-            pi_ = [j for j in idxs if toks[j - 1]["k"] == "D" and ("= %d" % (100 + j)) in (pt or "")]
+            pi_ = [j for j in idxs if toks[j - 1]["k"] in ("D", "F") and ("= %d" % (100 + j)) in (pt or "")]
             if st is not None and "p9" in st:
                 sj = [0]
             else:
-                sj = [j for j in idxs if toks[j - 1]["k"] == "D" and ("= %d" % (100 + j)) in (st or "")]
+                sj = [j for j in idxs if toks[j - 1]["k"] in ("D", "F") and ("= %d" % (100 + j)) in (st or "")]
             got.add((pi_[0] if len(pi_) == 1 else -9, sj[0] if len(sj) == 1 else -9))
         want = set((a, b) for a, b in c["shadows"])
         nshadow += len(want)
